@@ -319,6 +319,15 @@ func (b *Builder) genField(ctx pairCtx, src, dst *SDecl, name, mech string) {
 		ns := b.newStruct(sp, "SN")
 		nd := b.newStruct(dp, "DN")
 		same := b.chance(0.15)
+		// a sibling field WITHOUT any notation below it, whose name is a proper prefix of the nested
+		// field's name and whose type is the nested struct type itself (same && whole-struct copy) or a
+		// foreign struct with hidden members: it must keep being copied as a whole whatever notations
+		// address the members of its longer-named neighbour
+		sibling, sibFirst := "", b.chance(0.7)
+		if mech == "nested" && b.chance(0.25) {
+			sibling = name
+			name = name + "By"
+		}
 		sub := ctx
 		sub.depth++
 		sub.srcPkg, sub.dstPkg = sp, dp
@@ -337,6 +346,22 @@ func (b *Builder) genField(ctx pairCtx, src, dst *SDecl, name, mech string) {
 			// ns stays declared but unused
 		} else {
 			b.genPair(sub, ns, nd, nf)
+		}
+		if sibling != "" {
+			sibT := "ext.Inner"
+			if st == dt && b.chance(0.6) {
+				sibT = dt
+			}
+			if sibFirst {
+				dst.Fields = append(dst.Fields, FDecl{Name: sibling, Type: sibT})
+				src.Fields = append(src.Fields, FDecl{Name: sibling, Type: sibT})
+			} else {
+				defer func() {
+					dst.Fields = append(dst.Fields, FDecl{Name: sibling, Type: sibT})
+					src.Fields = append(src.Fields, FDecl{Name: sibling, Type: sibT})
+				}()
+			}
+			b.addProbe(ctx, sibling, "same", sibT, sibT, "prefix-named-sibling")
 		}
 		switch mech {
 		case "ptrnested":
@@ -425,7 +450,8 @@ func (b *Builder) genField(ctx pairCtx, src, dst *SDecl, name, mech string) {
 		lit := map[string]string{"int": "4242", "string": `"lit-` + name + `"`, "bool": "true", "LInt": "LInt(77)", "*int": "nil"}[t]
 		if t == "string" && b.chance(0.4) {
 			// characters that are special to text templating / regexp replacement must survive literally
-			lit = []string{`"$USD"`, `"$1.50off"`, `"${name}"`, `"100%d"`, `"a\\b"`, "`raw$0`", `"x$$y"`}[b.R.Intn(7)]
+			// ... and so must comment markers inside the literal text
+			lit = []string{`"$USD"`, `"$1.50off"`, `"${name}"`, `"100%d"`, `"a\\b"`, "`raw$0`", `"x$$y"`, `"http://x.y/z"`, `"a // b"`, `"/*c*/"`}[b.R.Intn(10)]
 		}
 		if (dst.Pkg != "" || src.Pkg != "") && t == "LInt" {
 			t, lit = "int", "4242"
